@@ -20,7 +20,8 @@ FILES = [
 ]
 REQUIRED_THEOREMS = ["C20_module", "C20_module_args_ignored", "C20_module_sizes_from_module", "C20_no_alias", "C20_sizes", "C20_reinit", "C20_module_ctor", "C20_init_module", "C20_fit_guard",
                      "C20_phase_aux_bias_zero", "C20_phase_aux_grad_zero", "C20_phase_aux_bias_zero_any_rule", "C20_phase_aux_bias_zero_torch_rules",
-                     "C20_phase_aux_bias_unused"]
+                     "C20_phase_aux_bias_unused",
+                     "C20_init_values", "C20_init_draw_count", "C20_init_zero_weights", "C20_default_sizes"]
 EXTRA_TRUSTED = [
     "torch.optim.SGD / Adam / AdamW / Adadelta / Adagrad / RMSprop / Adamax / NAdam follow the scalar update rules of QV.Model.PhaseAux / QV.Model.Optim "
     "(checked numerically on random gradient sequences with a changing learning rate, rtol 1e-6; NAdam 1e-4 because torch keeps mu_product in float32); "
@@ -40,7 +41,10 @@ RULE = ("case = random history (<= 12 ops quick / <= 30 thorough) of: construct 
         "independently (N(0,1)/sqrt(n) from torch's generator state before the op) but only compared as an AUXILIARY point (how the random stream is consumed "
         "is not part of the property); the property-level weight oracles are effect oracles (fresh storage, not all-zero unless zero_weights was passed "
         "to THIS call, different from the previous values and from the other network's); identities (data_ptr classes), shapes, tokens, refusal (not the exception type) compared exactly with the model "
-        "after every op; plus gradient-row and optimizer-rule cases. ARGUMENT FORMS (seed `af` of every op with options, `aseed` of a gradient case): "
+        "after every op; plus gradient-row and optimizer-rule cases; plus INITIALISATION-LAW cases (BinaryRBM / PurificationRBM constructor with sizes omitted, positional or by "
+        "keyword incl. None / 0, zero_weights omitted / False / True; module.initialize_parameters after a constructor with the opposite zero_weights; the three state "
+        "constructors from sizes) run with torch.randn wrapped in-process: the recorded draws are fed to QV.InitLaw.initParams / construct, sizes and biases compared "
+        "at property level, the weight values (draw / sqrt(num_visible), row-major, W before U) and the number of draws bit for bit at auxiliary level. ARGUMENT FORMS (seed `af` of every op with options, `aseed` of a gradient case): "
         "num_visible / num_hidden / num_aux (incl. 0), epochs / pos_batch_size / k of fit, eta of gamma_grad as Python int / numpy.int64 / int32 / intp / "
         "uint8 / 0-d numpy array / 0-d torch tensor; gpu, zero_weights (constructor and initialize_parameters), phase, expand as bool / int / numpy.bool_ / "
         "numpy comparison result / 0-d numpy array / 0-d torch tensor; by keyword or positionally. non-trivial iff the history contains a module-built or reinitialised "
@@ -629,6 +633,164 @@ def gen_grad(rng):
             "tseed": rng.randrange(1, 2 ** 31), "aseed": af.new_seed(rng)}
 
 
+
+# ---------------------------------------------------------------- initialisation LAW (extension round 2)
+class RandnRecorder:
+    """in-process wrapper around `torch.randn`: records every call's shape and the returned standard-normal draws (flattened in the
+    order of the contiguous result), so that the Lean value model `QV.InitLaw.initParams` can be fed the very draws the code saw"""
+
+    def __enter__(self):
+        self.orig = torch.randn
+        self.calls = []
+        self.stream = []
+
+        def randn(*a, **kw):
+            out = self.orig(*a, **kw)
+            self.calls.append(list(out.shape))
+            self.stream.extend(out.detach().to(torch.double).contiguous().view(-1).tolist())
+            return out
+
+        torch.randn = randn
+        return self
+
+    def __exit__(self, *exc):
+        torch.randn = self.orig
+        return False
+
+
+def _init_args(case):
+    """(args, kwargs) of the constructor call of the case: sizes omitted / positional / keyword, zero_weights omitted or passed"""
+    args, kw = [case["nv"]], {"gpu": False}
+    form = case["form"]
+    if form == "omit":                       # Ctor(nv)
+        pass
+    elif form == "pos":                      # Ctor(nv, nh[, na])
+        args.append(case["nh"])
+        if case["k"] == "purif" and case["na_given"]:
+            args.append(case["na"])
+    elif form == "kw":                       # Ctor(nv, num_hidden=nh, num_aux=na) — each only if given
+        if case["nh_given"]:
+            kw["num_hidden"] = case["nh"]
+        if case["k"] == "purif" and case["na_given"]:
+            kw["num_aux"] = case["na"]
+    if case["zw"] is not None:
+        kw["zero_weights"] = case["zw"]
+    return args, kw
+
+
+def _doc_sizes(case):
+    """the DOCUMENTED defaults, restated independently: num_hidden omitted/None -> num_visible (BinaryRBM: also 0), num_aux omitted/None -> num_visible"""
+    nv = case["nv"]
+    form = case["form"]
+    nh = case["nh"] if (form == "pos" or (form == "kw" and case["nh_given"])) else None
+    na = case["na"] if (case["k"] == "purif" and form in ("pos", "kw") and case["na_given"]) else None
+    H = nv if nh is None or (case["k"] == "binary" and nh == 0) else nh
+    A = 0 if case["k"] == "binary" else (nv if na is None else na)
+    return nh, na, (nv, H, A)
+
+
+def _net_obs(net):
+    isp = hasattr(net, "weights_U")
+    return {"W": bits(net.weights_W if isp else net.weights), "U": bits(net.weights_U) if isp else None,
+            "b": bits(net.visible_bias), "c": bits(net.hidden_bias), "d": bits(net.aux_bias) if isp else None,
+            "sizes": [net.num_visible, net.num_hidden, net.num_aux if isp else 0]}
+
+
+def initlaw_case(ctx, case):
+    """constructor / initialize_parameters / state-constructor call with torch.randn recorded in-process; the Lean value model gets the recorded draws"""
+    from .qc import BinaryRBM, PurificationRBM, PositiveWaveFunction, ComplexWaveFunction
+    k, via = case["k"], case["via"]
+    Ctor = BinaryRBM if k == "binary" else PurificationRBM
+    torch.manual_seed(case["tseed"])
+    args, kw = _init_args(case)
+    nh_arg, na_arg, doc = _doc_sizes(case)
+    zw = bool(case["zw"])
+    cs = dict(case)
+    ctx.count(f"initlaw:{via}/{k}/{case['form']}/zw={case['zw']}")
+    if via == "ctor":
+        with RandnRecorder() as rec:
+            net = Ctor(*args, **kw)
+        nets, form, m_nh, m_na = [net], "ctor", nh_arg, na_arg
+    elif via == "init":
+        net = Ctor(*args, **{**kw, "zero_weights": not zw})   # the constructor's option must not be remembered
+        with RandnRecorder() as rec:
+            if case["zw"] is None:
+                net.initialize_parameters()
+            else:
+                net.initialize_parameters(zero_weights=case["zw"])
+        nets, form, m_nh, m_na = [net], "init", doc[1], doc[2]
+    else:  # a state built from sizes: every network in `networks` order runs the constructor of its RBM class
+        St = {"pos": PositiveWaveFunction, "cplx": ComplexWaveFunction, "dens": DensityMatrix}[via]
+        skw = {a: b for a, b in kw.items() if a != "zero_weights"}
+        skw.pop("gpu")
+        with RandnRecorder() as rec:
+            st = St(*args, gpu=False, **skw)
+        nets, form, m_nh, m_na = [getattr(st, n) for n in st.networks], "ctor", nh_arg, na_arg
+        zw = False
+    pos = 0
+    for idx, net in enumerate(nets):
+        obs = _net_obs(net)
+        tag = f"initlaw {via}/{k}" + (f" net{idx}" if len(nets) > 1 else "")
+        # property oracles, independent of the model
+        ctx.oracle(f"{tag}: sizes are the documented defaults", obs["sizes"] == list(doc), cs,
+                   {"sizes": obs["sizes"], "documented": list(doc)}, sig=f"initlaw/{k}/default-sizes", theorem="C20_default_sizes")
+        bz = all(x == 0 for key in ("b", "c", "d") if obs[key] is not None for x in obs[key])
+        ctx.oracle(f"{tag}: all biases exactly zero", bz, cs, sig=f"initlaw/{k}/biases-zero", theorem="C20_init_values")
+        if zw:
+            wz = all(x == 0 for key in ("W", "U") if obs[key] is not None for row in obs[key] for x in row)
+            ctx.oracle(f"{tag}: zero_weights=True gives all-zero weights", wz, cs, sig=f"initlaw/{k}/zero-weights", theorem="C20_init_zero_weights")
+        if ctx.driver is not None:
+            r = ctx.driver.call("c20.init_values", kind=k, form=form, nv=case["nv"], nh=m_nh, na=m_na, zero=zw, draws=[f2b(x) for x in rec.stream[pos:]])
+            ctx.point(f"{tag}: resolved sizes (num_visible, num_hidden, num_aux)", "property", obs["sizes"], r["sizes"], cs, exact=True,
+                      sig=f"initlaw/{k}/sizes", theorem="C20_default_sizes")
+            ctx.point(f"{tag}: biases (bit patterns, lengths)", "property", [obs["b"], obs["c"], obs["d"]], [r["b"], r["c"], r["d"]], cs, exact=True,
+                      sig=f"initlaw/{k}/biases", theorem="C20_init_values, C20_default_sizes")
+            # how the stream is consumed and scaled is not in the property text: auxiliary
+            same_shape = [len(obs["W"]), None if obs["U"] is None else len(obs["U"])] == [len(r["W"]), None if r["U"] is None else len(r["U"])]
+            ctx.point(f"{tag}: weights == recorded draws / sqrt(num_visible), row-major, W before U (bit for bit)", "aux",
+                      [obs["W"], obs["U"], same_shape], [r["W"], r["U"], True], cs, exact=True, sig=f"initlaw/{k}/values",
+                      theorem="C20_init_values, C20_init_zero_weights")
+            pos += r["consumed"]
+    if ctx.driver is not None:
+        ctx.point(f"initlaw {via}/{k}: number of standard-normal draws consumed", "aux", len(rec.stream), pos, cs, exact=True,
+                  sig=f"initlaw/{k}/draw-count", theorem="C20_init_draw_count, C20_init_zero_weights")
+    ctx.case({"initlaw": {a: case[a] for a in ("k", "via", "form", "nv", "nh", "na", "nh_given", "na_given", "zw")}},
+             nontrivial=case["nv"] > 0 and not zw, sample={"initlaw": via, "k": k, "form": case["form"], "calls": rec.calls})
+
+
+def gen_initlaw(rng, fixed=None):
+    via = rng.choice(["ctor", "ctor", "init", "pos", "cplx", "dens"])
+    k = {"pos": "binary", "cplx": "binary", "dens": "purif"}.get(via) or rng.choice(["binary", "purif"])
+    nv = rng.choice([0, 1, 1, 2, 3, 4, 5])
+    case = {"type": "initlaw", "k": k, "via": via, "form": rng.choice(["omit", "pos", "kw", "kw"]), "nv": nv,
+            "nh": rng.choice([None, 0, 1, 2, 3, 6]), "na": rng.choice([None, 0, 1, 2, 4]),
+            "nh_given": rng.random() < 0.5, "na_given": rng.random() < 0.5,
+            "zw": rng.choice([None, None, False, True]) if via in ("ctor", "init") else None, "tseed": rng.randrange(1, 2 ** 31)}
+    if fixed:
+        case.update(fixed)
+    return case
+
+
+def fixed_initlaw():
+    base = {"type": "initlaw", "nh": 2, "na": 3, "nh_given": True, "na_given": True, "zw": None, "tseed": 7}
+    yield dict(base, k="purif", via="ctor", form="omit", nv=3)                                  # PurificationRBM(3): num_aux = num_hidden = 3
+    yield dict(base, k="purif", via="ctor", form="kw", nv=3, nh=2, na_given=False)             # num_hidden=2, num_aux omitted -> 3 (NOT 2)
+    yield dict(base, k="purif", via="ctor", form="kw", nv=4, nh_given=False, na=1)             # num_aux only
+    yield dict(base, k="purif", via="ctor", form="pos", nv=2, nh=3, na=3)                      # same shapes for W and U: order of the two calls
+    yield dict(base, k="purif", via="ctor", form="pos", nv=2, nh=0, na=0)                      # explicit 0 kept
+    yield dict(base, k="binary", via="ctor", form="omit", nv=3)
+    yield dict(base, k="binary", via="ctor", form="pos", nv=3, nh=0)                           # `if num_hidden`: 0 -> num_visible
+    yield dict(base, k="binary", via="ctor", form="kw", nv=2, nh=5, zw=True)
+    yield dict(base, k="purif", via="ctor", form="pos", nv=2, nh=2, na=1, zw=True)
+    yield dict(base, k="purif", via="init", form="pos", nv=3, nh=2, na=2, zw=None)
+    yield dict(base, k="purif", via="init", form="pos", nv=3, nh=2, na=2, zw=True)
+    yield dict(base, k="binary", via="init", form="pos", nv=4, nh=2, zw=False)
+    yield dict(base, k="purif", via="dens", form="omit", nv=2)                                 # DensityMatrix(2): two PurificationRBM(2, None, None)
+    yield dict(base, k="purif", via="dens", form="kw", nv=3, nh=1, na_given=False)
+    yield dict(base, k="binary", via="cplx", form="omit", nv=3)
+    yield dict(base, k="binary", via="pos", form="pos", nv=2, nh=3)
+
+
 def fixed_cases():
     """the hand-written histories (`_fixed_cases`), each with argument forms from a stream seeded by its tseed"""
     import random
@@ -715,6 +877,8 @@ def gen_cases(ctx, thorough, scale=1):
         yield gen_optim(ctx.rng)
     for _ in range(2 * no * scale):
         yield gen_rule(ctx.rng)
+    for _ in range(ng * 4 * scale):
+        yield gen_initlaw(ctx.rng)
 
 
 def one_case(ctx, case):
@@ -724,6 +888,8 @@ def one_case(ctx, case):
         grad_case(ctx, case)
     elif case["type"] == "rule":
         rule_case(ctx, case)
+    elif case["type"] == "initlaw":
+        initlaw_case(ctx, case)
     else:
         optim_case(ctx, case)
 
@@ -732,6 +898,8 @@ def run(ctx):
     ctx.rule = RULE
     wrong_module_probe(ctx)
     for case in fixed_cases():
+        one_case(ctx, case)
+    for case in fixed_initlaw():
         one_case(ctx, case)
     for case in gen_cases(ctx, ctx.tier == "thorough"):
         one_case(ctx, case)
@@ -744,6 +912,8 @@ def env_run(ctx, env_name):
     wrong_module_probe(ctx)
     for case in fixed_cases():
         one_case(ctx, case)
+    for case in fixed_initlaw():
+        one_case(ctx, case)
     for _ in range(6):
         one_case(ctx, gen_grad(ctx.rng))
 
@@ -752,6 +922,8 @@ def search(ctx):
     drv, ctx.driver = ctx.driver, None
     try:
         for case in fixed_cases():
+            one_case(ctx, case)
+        for case in fixed_initlaw():
             one_case(ctx, case)
         for case in gen_cases(ctx, True, scale=2):
             one_case(ctx, case)
